@@ -182,6 +182,11 @@ def run_gjk_nesterov_accelerated(
             momentum = (i + 1) / (i + 3)
             y = momentum * ray + (1.0 - momentum) * support_point
             ray_dir = momentum * ray_dir + (1.0 - momentum) * y
+            if not ray_dir.any():
+                # the momentum term cancelled the search direction:
+                # continue with plain GJK
+                use_nesterov_acceleration = False
+                ray_dir = ray
         else:
             ray_dir = ray
 
